@@ -5,6 +5,6 @@ PYTHONDONTWRITEBYTECODE=1 /venv/bin/python - <<'PY'
 import os, json, artap, jsonschema
 where = os.path.dirname(os.path.dirname(os.path.abspath(artap.__file__)))
 assert os.path.realpath(where) == "/repo", where
-json.load(open("/root/.vp/EVIDENCE.schema.json"))
+json.load(open("schemas/EVIDENCE.schema.json"))
 print("setup ok: artap from", where)
 PY
